@@ -396,7 +396,7 @@ orc_program_add_source_full (OrcProgram *program, int size, const char *name,
 
   program->vars[i].vartype = ORC_VAR_TYPE_SRC;
   program->vars[i].size = size;
-  if (alignment == 0) alignment = size;
+  if (alignment <= 0) alignment = size;
   program->vars[i].alignment = alignment;
   program->vars[i].name = strdup(name);
   if (type_name) {
@@ -446,7 +446,7 @@ orc_program_add_destination_full (OrcProgram *program, int size, const char *nam
 
   program->vars[i].vartype = ORC_VAR_TYPE_DEST;
   program->vars[i].size = size;
-  if (alignment == 0) alignment = size;
+  if (alignment <= 0) alignment = size;
   program->vars[i].alignment = alignment;
   program->vars[i].name = strdup(name);
   if (type_name) {
@@ -770,6 +770,10 @@ orc_program_set_type_name (OrcProgram *program, int var, const char *type_name)
 void
 orc_program_set_var_alignment (OrcProgram *program, int var, int alignment)
 {
+  /* 0 asks for the default, as in orc_program_add_source_full(): the
+   * alignment of one element.  Stored as 0 it passed every "multiple of the
+   * register size" test and the x86 back ends used aligned loads. */
+  if (alignment <= 0) alignment = program->vars[var].size;
   program->vars[var].alignment = alignment;
 }
 
